@@ -166,13 +166,12 @@ theorem nu_exp_le (x : ℝ) : x * exp (-(x ^ 2) / 2) ≤ exp (-1 / 2) := by
 /-- C07 (PS): for every peak height the PS multiplicity is at most √(2/π) e^{−1/2} -/
 theorem PS_le_peak (opq) (ρ : String → ℝ) (hν : 0 ≤ ρ "nu2") :
     evalR opq ρ Gen.Fits.PS_fsigma ≤ sqrt (2 / π) * exp (-1 / 2) := by
-  fit_unfold [Gen.Fits.PS_fsigma]
+  have hc : evalR opq ρ Gen.Fits.PS_fsigma = sqrt (2 / π) * (sqrt (ρ "nu2") * exp (-(ρ "nu2") / 2)) := by
+    fit_unfold [Gen.Fits.PS_fsigma]
+    expr_finish
+  rw [hc]
   have h := nu_exp_le (sqrt (ρ "nu2"))
   rw [Real.sq_sqrt hν] at h
-  have hs : 0 ≤ sqrt (2 * 10 ^ (0:ℤ) / π) := sqrt_nonneg _
-  have e1 : (-5 * 10 ^ (-1:ℤ) * ρ "nu2" : ℝ) = -(ρ "nu2") / 2 := by norm_num; ring
-  have e2 : (2 * 10 ^ (0:ℤ) / π : ℝ) = 2 / π := by norm_num
-  rw [e1, e2, mul_assoc]
   exact mul_le_mul_of_nonneg_left h (sqrt_nonneg _)
 
 
@@ -184,9 +183,11 @@ open MeasureTheory Set Filter Topology
 theorem PS_closed (opq) (ρ : String → ℝ) :
     evalR opq ρ Gen.Fits.PS_fsigma = sqrt (2 / π) * sqrt (ρ "nu2") * exp (-(ρ "nu2") / 2) := by
   fit_unfold [Gen.Fits.PS_fsigma]
-  have e1 : (-5 * 10 ^ (-1:ℤ) * ρ "nu2" : ℝ) = -(ρ "nu2") / 2 := by norm_num; ring
-  have e2 : (2 * 10 ^ (0:ℤ) / π : ℝ) = 2 / π := by norm_num
-  rw [e1, e2]
+  first
+  | (have e1 : (-5 * 10 ^ (-1:ℤ) * ρ "nu2" : ℝ) = -(ρ "nu2") / 2 := by norm_num; ring
+     have e2 : (2 * 10 ^ (0:ℤ) / π : ℝ) = 2 / π := by norm_num
+     rw [e1, e2]; done)
+  | expr_finish
 
 /-- C07 (PS): f → 0 as σ → 0 (ν² → ∞) -/
 theorem PS_tendsto_zero_small_sigma (opq) (ρ : String → ℝ) :
